@@ -367,10 +367,14 @@ func run(run *ev.Run) {
 	start := time.Now()
 	maxSize := 4
 	deadline := 10 * time.Minute
+	fullUpTo := 3 // batches up to this size use the whole alphabet, larger ones the sub-alphabet `big`
+	big := []string{"eth_blockNumber", "net_version", "eth_getBalance(", "eth_call(latest)", "eth_call(earliest)", "eth_call(0x1)", "eth_call(0x3e8)",
+		"eth_getBlockByNumber(0x64)", "debug_traceBlockByNumber(0x64)"}
 	tags := []string{"latest", "earliest", "pending", "safe", "finalized", "0x1", "0x64", "0x3e8"}
 	if ev.Tier() == "thorough" {
 		maxSize = 5
 		deadline = 14 * time.Minute
+		fullUpTo = 4
 	}
 	plain, err := newParser(false)
 	if err == nil {
@@ -380,7 +384,7 @@ func run(run *ev.Run) {
 			c := &checker{run: run, ms: alphabet(tags), plain: plain, arch: arch, latests: []uint64{0, 100, 5000},
 				kindMinSize: map[string]int{}, witnessOrder: map[string]string{}, pending: map[string]ev.Violation{}, counts: map[string]int64{}, shapes: map[string]int64{}}
 			if err = c.parseAlone(); err == nil {
-				explore(c, maxSize, start.Add(deadline))
+				explore(c, maxSize, fullUpTo, big, start.Add(deadline))
 				return
 			}
 		}
@@ -388,7 +392,7 @@ func run(run *ev.Run) {
 	run.Violate(ev.Violation{Key: "harness-setup", What: err.Error()})
 }
 
-func explore(c *checker, maxSize int, deadline time.Time) {
+func explore(c *checker, maxSize, fullUpTo int, big []string, deadline time.Time) {
 	run := c.run
 	n := len(c.ms)
 	work := make(chan []int, 1024)
@@ -407,7 +411,25 @@ func explore(c *checker, maxSize int, deadline time.Time) {
 		}()
 	}
 	completed := 0
+	all := make([]int, n)
+	for i := range all {
+		all[i] = i
+	}
+	var sub []int // the members allowed in batches of size 5
+	for i, m := range c.ms {
+		for _, pfx := range big {
+			if strings.HasPrefix(m.name, pfx) {
+				sub = append(sub, i)
+				break
+			}
+		}
+	}
 	for size := 1; size <= maxSize; size++ {
+		idxs := all
+		if size > fullUpTo {
+			idxs = sub
+		}
+		n := len(idxs)
 		// all non-decreasing index tuples of this size = all multisets
 		set := make([]int, size)
 		for {
@@ -415,7 +437,11 @@ func explore(c *checker, maxSize int, deadline time.Time) {
 				atomic.StoreInt32(&timedOut, 1)
 				break
 			}
-			work <- append([]int{}, set...)
+			mapped := make([]int, size)
+			for k, v := range set {
+				mapped[k] = idxs[v]
+			}
+			work <- mapped
 			i := size - 1
 			for i >= 0 && set[i] == n-1 {
 				i--
@@ -467,7 +493,11 @@ func explore(c *checker, maxSize int, deadline time.Time) {
 	for _, m := range c.ms {
 		names = append(names, m.name)
 	}
-	run.Set("bound", fmt.Sprintf("batch size 1..%d (completed up to %d) over %d members %v; latest block in %v; all orders", maxSize, completed, n, names, c.latests))
+	bound := fmt.Sprintf("batch size 1..%d (completed up to %d) over %d members %v; latest block in %v; all orders", fullUpTo, min(completed, fullUpTo), n, names, c.latests)
+	if maxSize > fullUpTo {
+		bound += fmt.Sprintf("; batch size %d..%d (completed up to %d) over the %d members whose name starts with one of %v", fullUpTo+1, maxSize, completed, len(sub), big)
+	}
+	run.Set("bound", bound)
 	run.Assume("compute units are compared on a parser with no extension configured, because an attached extension multiplies the CU of the whole message; blocks, order independence and archive are checked with the archive extension allowed by policy")
 	run.Assume("a failure kind is keyed by the smallest batch size at which it occurs (kind@size, witness = smallest such batch); other failing batches of the kind are counted in failures_by_kind / failing_shapes_of_size_2")
 	run.Assume("batches the parser rejects (members from two different add-ons) are counted, not judged")
